@@ -94,4 +94,12 @@ theorem reserve_capacity_wakes_connection_example :
     r7.prio.pendingSend = [1] ∧ r7.wakes = ["c"] ∧ r7.actions.task = none := by decide
 end R1
 
+/-- a small state for the non-vacuity examples: one open stream (id 1, key 0) linked in the id map, a
+    response future parked on it (`p0`), its body sender parked for capacity (`s0`), two handles -/
+def exOpen : Streams :=
+  { store := { slab := [{ key := 0, id := 1, state := { inner := .open .streaming .awaitingHeaders }, refCount := 2,
+                          recvTask := some "p0", sendTask := some "s0", isCounted := true }],
+               ids := [(1, 0)], nextKey := 1 },
+    counts := { numSendStreams := 1 } }
+
 end H2V.Lemmas.ConnWakeP
